@@ -103,6 +103,11 @@ type Config struct {
 	NoProgress int
 	// OnCrash is called (kernel context) when a task of party dies by panic.
 	OnCrash func(party string, t *Task)
+	// OnStall is called (kernel context) when no task can run and no timer is
+	// pending although tasks remain: the world may abort the session (close
+	// sockets, which readies their waiters) and return true to continue; the
+	// run ends as Deadlock when it returns false or nothing became runnable.
+	OnStall func() bool
 }
 
 // Policy is the scheduling policy of a run in search mode.
@@ -125,6 +130,7 @@ type World struct {
 	seq          uint64
 	h            hash.Hash
 	steps        int
+	stalls       int
 	switches     int
 	done         chan Outcome
 	outcome      Outcome
@@ -457,9 +463,20 @@ func (w *World) dispatch(self *Task) {
 		}
 		if allDone {
 			w.finish(Completed, self)
-		} else {
-			w.finish(Deadlock, self)
+			return
 		}
+		if w.cfg.OnStall != nil && w.stalls < 4 {
+			w.stalls++
+			w.logRec('D', uint64(w.stalls), 0)
+			if w.cfg.Trace {
+				w.tracef("stall: no task can run; asking the world")
+			}
+			if w.cfg.OnStall() {
+				w.lastProgress = w.steps
+				continue
+			}
+		}
+		w.finish(Deadlock, self)
 		return
 	}
 }
